@@ -65,7 +65,7 @@ def rpc_scripts(ctx, rng):
     for cfg in CONFIGS if not ctx.quick() else CONFIGS[:4]:
         scripts.append({"cfg": cfg, "holes": ["*"], "acts": []})
     eps = spec_endpoints()
-    k = 2 if ctx.quick() else 10
+    k = 6 if ctx.quick() else 20
     for _ in range(k):
         cfg = rng.choice(CONFIGS)
         hs = sorted(rng.sample(eps, rng.choice([1, 2, 5])))
@@ -73,10 +73,13 @@ def rpc_scripts(ctx, rng):
         scripts.append({"cfg": cfg, "holes": hs, "acts": acts})
     if not ctx.quick():
         # longer seeded Trust/Distrust histories
-        for _ in range(12):
+        for _ in range(60):
             cfg = rng.choice(CONFIGS)
-            acts = [{"a": rng.choice(["trust", "distrust"]), "p": rng.choice(["b", "c"])} for _ in range(rng.randint(3, 6))]
+            acts = [{"a": rng.choice(["trust", "distrust"]), "p": rng.choice(["b", "c"])} for _ in range(rng.randint(3, 8))]
             scripts.append({"cfg": cfg, "holes": [], "acts": acts})
+        # every single policy entry missing once (configuration by seed)
+        for e in eps:
+            scripts.append({"cfg": rng.choice(CONFIGS), "holes": [e], "acts": []})
     for i, s in enumerate(scripts):
         s["id"] = i + 1
         # cluster.Config.Tracing selects the second rpc.NewServer call in newRPCServer
@@ -130,7 +133,7 @@ def pubsub_scripts(ctx, rng):
                     "relay": ["d"], "links": [["c", "d"], ["d", "a"], ["b", "c"]],
                     "events": [P("c"), {"ev": "link", "r": "a", "p": "c"}, P("c"), P("a"), TR("a", "c")]})
     reps = ["a", "b", "c", "d"]
-    for _ in range(1 if ctx.quick() else 12):
+    for _ in range(1 if ctx.quick() else 20):
         tr = {}
         for r in reps:
             if rng.random() < 0.2:
